@@ -114,7 +114,7 @@ PROPS = {
              "fresh copies of Stump, Pollard and MapPollard (TotalRows 0,3,63); (b) histories in which every block is applied in a "
              "non-canonical encoding: targets and hashes jointly permuted, 0-3 junk hashes appended; roots compared with the "
              "reference after deleting exactly the leaves at the claimed positions",
-        strength="refuted(pinned) P; P: for ANY accepted encoding (any target order, unused trailing hashes) whose targets are leaf positions the mirror of the repaired Stump.Update ends with exactly the reference roots/leaf count, per block and along every history (C05_any_accepted_deletion/_block/_history, free hash algebra, <= 2^63 leaves); outcome independent of the encoding (any injective hash2); canonical encoding: any hash type (C05_stump_applies_block_like_reference, _history); V: accepted (incl. non-canonical) encodings applied identically by all implementations (oracle)",
+        strength="refuted(pinned) P; P: C05_map_forest_any_encoding - the mirror of MapPollard.Modify given the targets in ANY order and ANY proof hashes ends consistent with the reference forest after the block (same roots as the stump: C01_map_forest_every_history); for ANY accepted encoding (any target order, unused trailing hashes) whose targets are leaf positions the mirror of the repaired Stump.Update ends with exactly the reference roots/leaf count, per block and along every history (C05_any_accepted_deletion/_block/_history, free hash algebra, <= 2^63 leaves); outcome independent of the encoding (any injective hash2); canonical encoding: any hash type (C05_stump_applies_block_like_reference, _history); V: accepted (incl. non-canonical) encodings applied identically by all implementations (oracle)",
         level_text="A Coq witness shows that at the pinned commit an accepted proof made the stump delete another leaf than the forests "
                    "(defect D4, repaired). For the repaired code it is a theorem that the mirror of Stump.Update, given the canonical proof "
                    "of distinct live leaves, ends with exactly the reference roots and leaf count of the block (and so over whole "
